@@ -428,6 +428,26 @@ func main() {
 			if err := nathole.DecodeMessageInto(enc, key, &back); err != nil || !reflect.DeepEqual(&back, sid) {
 				c.Violate("datagram", "datagram:roundtrip", fmt.Sprintf("datagram round trip: %+v -> %+v (err %v)", sid, back, err), nil)
 			}
+			// successive datagrams of one process: every encoding stands alone, whatever was encoded before it (longer,
+			// shorter, another key) — the k-th use after k-1 earlier ones
+			var seq []*msg.NatHoleSid
+			for i, n := range []int{1, 40, 3, 0, 200, 7, 7, 90, 2, 1} {
+				seq = append(seq, &msg.NatHoleSid{TransactionID: fmt.Sprintf("t-%d", i), Sid: strings.Repeat("s", n), Response: i%2 == 1, Nonce: strings.Repeat("n", (i*13)%50)})
+			}
+			keys := [][]byte{key, []byte("k2"), key}
+			for i, m := range seq {
+				k := keys[i%len(keys)]
+				c.Count(fmt.Sprintf("datagram-seq:%d", i))
+				e, err := nathole.EncodeMessage(m, k)
+				var b msg.NatHoleSid
+				if err == nil {
+					err = nathole.DecodeMessageInto(e, k, &b)
+				}
+				if err != nil || !reflect.DeepEqual(&b, m) {
+					c.Violate("datagram", fmt.Sprintf("datagram:sequence:%d", i), fmt.Sprintf("datagram %d of a sequence encoded by one process: sent %+v, the decoder yields %+v (err %v)", i+1, *m, b, err), nil)
+					break
+				}
+			}
 			var inputs [][]byte
 			for l := 0; l <= 64; l++ {
 				z := make([]byte, l)
